@@ -285,6 +285,9 @@ func checkC13(c *Ctx) {
 
 	// ---- R8 ref resolution before field reads
 	checkRefResolution(c, r)
+
+	// ---- R9 every HTTP method is indexed (an unlisted method's endpoints are never compared)
+	checkMethodExhaustive(c, "C13.R9.methods", pk, 1)
 }
 
 func paramIndex(info *types.Info, fd *ast.FuncDecl, v *types.Var) int {
